@@ -39,6 +39,37 @@ def _herm(rng, d, s=1.0):
     return (a + a.conj().T) / 2
 
 
+def _unitary(rng, d):
+    a = np.array([[_cplx(rng) for _ in range(d)] for _ in range(d)])
+    q, r = np.linalg.qr(a)
+    return q * (np.diag(r) / np.abs(np.diag(r)))
+
+
+def coupling_operator(case, i):
+    """the (Hermitian) system operator coupled to bath i: diagonal, or rotated by a complex unitary"""
+    o = np.diag(np.array(case["coupling"][i], dtype=complex))
+    cu = case.get("cu")
+    if cu:
+        o = cu[i] @ o @ cu[i].conj().T
+        o = (o + o.conj().T) / 2
+    return o
+
+
+def laid_out(rho, layout):
+    """the same density matrix in another memory layout"""
+    rho = np.array(rho, dtype=complex)
+    if layout == "F":
+        return np.asfortranarray(rho)
+    if layout == "T":                      # transposed view of a C-contiguous array
+        return np.ascontiguousarray(rho.T).T
+    if layout == "slice":                  # non-contiguous view into a larger array
+        d = rho.shape[0]
+        big = np.zeros((2 * d, 2 * d), dtype=complex)
+        big[::2, ::2] = rho
+        return big[::2, ::2]
+    return rho.copy()
+
+
 def _dm(rng, d):
     a = np.array([[_cplx(rng) for _ in range(d)] for _ in range(d)])
     rho = a @ a.conj().T + 0.1 * np.eye(d)
@@ -102,6 +133,14 @@ def gen_case(rng, tier, **force):
         case["hw"] = 9.0
     if "subdiv" not in force and rng.random() < 0.3:
         case["subdiv"] = "default"
+    # third generation: degeneracy checking in MeanFieldTempo (unique=True), coupling operators that
+    # are not diagonal (complex Hermitian), initial states handed over in non-C memory layouts
+    u = rng.random()
+    case["unique"] = force.get("unique", u < 0.25)
+    v = rng.random()
+    nondiag = force.get("nondiag", v < 0.35)
+    case["cu"] = [_unitary(rng, d) for d in dims] if nondiag else None
+    case["layout"] = force.get("layout", rng.choice(["C", "C", "F", "T", "slice"]))
     return case
 
 
@@ -204,8 +243,8 @@ class Problem:
             make_h(i), gammas=[rate(i, j, True) for j in range(len(gam[i]))],
             lindblad_operators=[lind(i, j, True) for j in range(len(gam[i]))]) for i in range(nsys)]
         self.mfs = oqupy.MeanFieldSystem(self.systems, eom)
-        self.baths = [oqupy.Bath(np.diag(np.array(cp, dtype=complex)), oq.cheap_bath().correlations)
-                      for cp in case["coupling"]]
+        self.baths = [oqupy.Bath(coupling_operator(case, i), oq.cheap_bath().correlations)
+                      for i in range(nsys)]
         # "default": the propagator settings are not passed anywhere (the methods' own defaults)
         self.kw = {} if case["subdiv"] == "default" else {"subdiv_limit": case["subdiv"]}
         self.params = oqupy.TempoParameters(dt=case["dt"], epsrel=EPSREL, dkmax=case["dkmax"], **self.kw)
@@ -216,11 +255,16 @@ class Problem:
         self.ham_log.clear()
         self.diss_log.clear()
 
-    def run_mft(self):
+    def initial_states(self, layout=None):
+        layout = self.case.get("layout", "C") if layout is None else layout
+        return [laid_out(r, layout) for r in self.case["rho0"]]
+
+    def run_mft(self, unique=None, layout=None):
         import oqupy
         case = self.case
-        m = oqupy.MeanFieldTempo(self.mfs, self.baths, self.params, [r.copy() for r in case["rho0"]],
-                                 case["a0"], start_time=case["start"])
+        unique = bool(case.get("unique", False)) if unique is None else unique
+        m = oqupy.MeanFieldTempo(self.mfs, self.baths, self.params, self.initial_states(layout),
+                                 case["a0"], start_time=case["start"], unique=unique)
         self.reset()
         dyn = m.compute(self.end if case["n"] > 0 else case["start"], progress_type="silent")
         return _result(dyn, self.eom_log, self.ham_log, self.diss_log)
@@ -238,14 +282,14 @@ class Problem:
                          for b in self.baths]
         return self._pts
 
-    def run_cdwf(self, record_all=None):
+    def run_cdwf(self, record_all=None, layout=None):
         import oqupy
         case = self.case
         pts = self.process_tensors()
         self.reset()
         dyn = oqupy.compute_dynamics_with_field(
             self.mfs, initial_field=case["a0"], process_tensor_list=pts, dt=case["dt"],
-            num_steps=case["n"], initial_state_list=[r.copy() for r in case["rho0"]],
+            num_steps=case["n"], initial_state_list=self.initial_states(layout),
             start_time=case["start"],
             record_all=case["record_all"] if record_all is None else record_all,
             progress_type="silent", **self.kw)
@@ -500,7 +544,7 @@ def corpus_cases():
 
 def correspondence(res, tier, rng):
     cases = [("corpus:" + f, c) for f, c in corpus_cases()]
-    ngen = 16 if tier == "quick" else 90
+    ngen = 20 if tier == "quick" else 90
     # fixed coverage first, then random
     forced = [dict(dims=[2], n=1, kind="linear-t", start=1.0, dt=0.1, subdiv=None, record_all=True),
               dict(dims=[2, 3, 2], n=3, kind="full", start=-0.7, subdiv=None, record_all=False),
@@ -519,7 +563,15 @@ def correspondence(res, tier, rng):
               dict(dims=[2], n=3, kind="stationary", start=0.5, dt=0.1, field_in_h=False,
                    subdiv="default", nl=1, hw=9.0, record_all=True),
               dict(dims=[2], n=2, kind="stationary-zero", start=-0.3, dt=0.1, field_in_h=False,
-                   subdiv=None, nl=1, hw=9.0, record_all=False)]
+                   subdiv=None, nl=1, hw=9.0, record_all=False),
+              # unique=True with non-diagonal complex couplings; non-C initial-state layouts
+              dict(dims=[2, 3], n=3, kind="full", dt=0.1, subdiv=None, nl=0, unique=True, nondiag=True,
+                   layout="C", record_all=True),
+              dict(dims=[2], n=2, kind="full", subdiv=None, nl=0, unique=False, nondiag=True,
+                   layout="F", record_all=True),
+              dict(dims=[3], n=2, kind="full", subdiv=None, nl=0, unique=True, nondiag=False,
+                   layout="T", record_all=False),
+              dict(dims=[2], n=2, kind="full", subdiv=None, nl=0, layout="slice", record_all=True)]
     for i, f in enumerate(forced):
         cases.append(("forced%d" % i, gen_case(rng, tier, **f)))
     for i in range(ngen - len(forced)):
@@ -538,6 +590,9 @@ def correspondence(res, tier, rng):
                                     "integrated-default-arguments" if case["subdiv"] == "default"
                                     else "integrated"))
         res.count("lindblad-terms=%d" % len((case.get("gam") or [[]])[0]))
+        res.count("unique=%s coupling=%s" % (bool(case.get("unique")),
+                                             "non-diagonal" if case.get("cu") else "diagonal"))
+        res.count("initial-state-layout=" + case.get("layout", "C"))
         if case.get("q") or case["hw"] == 9.0:
             res.count("hamiltonian non-linear in field / fast in t")
         res.count("steps=%d" % case["n"])
@@ -682,10 +737,45 @@ def oracle_case(res, case, tag=""):
                               "exact": [str(exact_linear(case, kk)) for kk in idx]})
                     found = True
                     break
+    layout = case.get("layout", "C")
+    feat = (" unique" if case.get("unique") else "") + \
+        (" non-diagonal-coupling" if case.get("cu") else "") + \
+        (" initial-state-layout=" + layout if layout != "C" else "")
+    what += feat
+    if case.get("unique") and case["n"] >= 1:
+        # degeneracy checking must not change the result (MeanFieldTempo unique=True vs False)
+        ref, _ = _safe(lambda: p.run_mft(unique=False))
+        if ref is not None:
+            dd = max(float(np.max(np.abs(np.array(mft["fields"]) - np.array(ref["fields"])))),
+                     max(float(np.max(np.abs(mft["states"][i] - ref["states"][i])))
+                         for i in range(len(case["dims"]))))
+            if dd > TOL_CROSS:
+                res.fail("unique:MeanFieldTempo" + (" non-diagonal-coupling" if case.get("cu") else ""),
+                         {"case": cj, "diff": dd, "how": "MeanFieldTempo(unique=True) differs by %.3g from "
+                          "the unique=False run (%s)" % (dd, what)})
+                found = True
+    if layout != "C" and case["n"] >= 1:
+        # the memory layout of the initial states is not part of their value
+        for meth, real, rerun in (("MeanFieldTempo", mft, lambda: p.run_mft(layout="C")),
+                                  ("compute_dynamics_with_field", cd, lambda: p.run_cdwf(layout="C"))):
+            ref, _ = _safe(rerun)
+            if ref is None:
+                continue
+            dd = max(float(np.max(np.abs(np.array(real["fields"]) - np.array(ref["fields"])))),
+                     max(float(np.max(np.abs(real["states"][i] - ref["states"][i])))
+                         for i in range(len(case["dims"]))))
+            if dd > 1e-12:
+                res.fail("initial-state-layout:%s layout=%s" % (meth, layout),
+                         {"case": cj, "diff": dd, "how": "%s started from the same density matrices in "
+                          "memory layout %s (F = Fortran copy, T = transposed view, slice = strided "
+                          "view) differs by %.3g from the C-contiguous run (%s)"
+                          % (meth, layout, dd, what)})
+                found = True
     bad = cross_method(case, mft, cd, case["record_all"])
     if bad:
         dep = "default-arguments" if default else \
             "time-dependent-eom" if case["kind"] != "autonomous" else "autonomous-eom"
+        dep += feat
         res.fail("cross-method:" + dep,
                  {"case": cj, "how": "MeanFieldTempo and compute_dynamics_with_field (process tensors "
                   "of the same baths) differ, %s: %s" % (what, "; ".join(bad[:3])),
@@ -755,6 +845,13 @@ def search(res, rng=None):
         for sub in ("default", None):
             oracle_case(res, gen_case(rng, "quick", dims=[2], n=4, kind=kind, start=0.5, dt=0.1,
                                       field_in_h=False, subdiv=sub, nl=1, hw=9.0, record_all=True))
+    # (c3) degeneracy checking with non-diagonal complex couplings (2- and 3-level systems);
+    #      initial states in Fortran / transposed / strided layouts
+    oracle_case(res, gen_case(rng, "quick", dims=[2, 3], n=4, kind="full", dt=0.1, subdiv=None, nl=0,
+                              unique=True, nondiag=True, layout="C", record_all=True))
+    for lay in ("F", "T", "slice"):
+        oracle_case(res, gen_case(rng, "quick", dims=[2], n=2, kind="full", dt=0.1, subdiv=None, nl=0,
+                                  unique=False, nondiag=False, layout=lay, record_all=True))
     # (d) fresh inputs: linear-in-time and fully time dependent equations, start_time != 0,
     #     1-3 systems, both record_all settings, field-free Hamiltonians
     for i in range(10):
@@ -778,7 +875,9 @@ def run(tier, seed, replay):
         "time-only, autonomous, stationary f=0 / f=c*a from a0=0), start_time in {0, !=0}, dt in {0.1,0.05,0.2,0.125,0.07}, 0-6 steps, "
         "both record_all settings, propagators sampled (subdiv_limit=None), integrated (64) and with the "
         "methods' DEFAULT settings (nothing passed), Hamiltonians slow/fast (cos 9t) in t and linear / "
-        "|a|^2 in the field, 0-2 time dependent Lindblad rates and operators per system (times handed "
+        "|a|^2 in the field, MeanFieldTempo unique in {False, True}, coupling operators diagonal / "
+        "rotated by a complex unitary, initial states C / Fortran / transposed-view / strided, "
+        "0-2 time dependent Lindblad rates and operators per system (times handed "
         "to them logged and compared with dissArgs bit-exactly; in integrated runs against the "
         "Hamiltonian's time of the same Liouvillian), baths with dkmax 1-3.  Real "
         "MeanFieldTempo and compute_dynamics_with_field (process tensors of the same baths) run with "
